@@ -5,7 +5,8 @@
 // file; when the child dies during a run WITH hibernation the supervisor writes a trace that consists of that one
 // input with the outcome (panic crash), which the driver reports as a property failure with a concrete replayable
 // input (the replay crashes the child again).  A crash during a run without hibernation is not a C09 matter and is
-// passed on as a failure of the harness.
+// passed on as a failure of the harness.  A run with hibernation that does not return within C09_RUN_LIMIT seconds
+// (default 300) is killed and recorded as (panic hang) in the same way.
 package main
 
 import (
@@ -13,7 +14,9 @@ import (
 	"io/ioutil"
 	"os"
 	"os/exec"
+	"strconv"
 	"strings"
+	"time"
 
 	. "verifharness/lib"
 	"verifharness/synth"
@@ -84,7 +87,36 @@ func supervise() {
 	cmd.Stdout = os.Stdout
 	cmd.Stderr = os.Stderr
 	cmd.Stdin = os.Stdin
-	err = cmd.Run()
+	if err = cmd.Start(); err != nil {
+		os.RemoveAll(dir)
+		fmt.Fprintln(os.Stderr, err)
+		os.Exit(2)
+	}
+	// watchdog: one run of the pipeline that takes longer than the limit (default 300 s; the largest run of the
+	// thorough tier takes 40 s) counts as a run that never returns
+	limit := 300 * time.Second
+	if v, e := strconv.Atoi(os.Getenv("C09_RUN_LIMIT")); e == nil && v > 0 {
+		limit = time.Duration(v) * time.Second
+	}
+	done := make(chan error, 1)
+	go func() { done <- cmd.Wait() }()
+	hung := false
+wait:
+	for {
+		select {
+		case err = <-done:
+			break wait
+		case <-time.After(time.Second):
+			if st, e := os.Stat(jp); e == nil && time.Since(st.ModTime()) > limit {
+				if data, e := ioutil.ReadFile(jp); e == nil && strings.HasPrefix(string(data), "run\n") {
+					hung = true
+					cmd.Process.Kill()
+					err = <-done
+					break wait
+				}
+			}
+		}
+	}
 	os.RemoveAll(dir)
 	if err == nil {
 		os.Remove(jp)
@@ -100,8 +132,14 @@ func supervise() {
 	if jerr != nil || len(lines) < 2 || lines[0] != "run" {
 		os.Exit(code)
 	}
-	fmt.Fprintln(os.Stderr, "c09: the process died during a run with hibernation; the trace holds that input only")
-	line := "(case 0 " + lines[1] + " (obs (base (ok unknown)) (res (panic crash)) (denies 0) (plansame 1) (plan0 ()) (plan ())" +
+	class := "crash"
+	if hung {
+		class = "hang"
+		fmt.Fprintln(os.Stderr, "c09: a run with hibernation did not return within", limit, "; the trace holds that input only")
+	} else {
+		fmt.Fprintln(os.Stderr, "c09: the process died during a run with hibernation; the trace holds that input only")
+	}
+	line := "(case 0 " + lines[1] + " (obs (base (ok unknown)) (res (panic " + class + ")) (denies 0) (plansame 1) (plan0 ()) (plan ())" +
 		" (events) (listings) (final ())))\n"
 	if ioutil.WriteFile(out, []byte(line), 0644) != nil {
 		os.Exit(code)
